@@ -273,14 +273,47 @@ StrLens == 0..4
 StrOK(f, n) == /\ (f.len # 99 => n = f.len) /\ (f.minl # 99 => n >= f.minl) /\ (f.maxl # 99 => n <= f.maxl)
 StrTable == {[f |-> f, n |-> n, ok |-> StrOK(f, n)] : f \in StrFacets, n \in StrLens}
 
-(* digits on xs:decimal: both count digits of the VALUE (trailing fraction zeros and *)
-(* leading zeros do not count).  A candidate is <<text, total digits, fraction digits>> *)
-DecCands == {<<"1", 1, 0>>, <<"1.5", 2, 1>>, <<"1.50", 2, 1>>, <<"1.55", 3, 2>>, <<"12.5", 3, 1>>,
-             <<"123.4", 4, 1>>, <<"0.5", 1, 1>>, <<"010", 2, 0>>, <<"1.0", 1, 0>>}
-DigFacets == [td : {99, 2, 3}, fd : {99, 0, 1}]
-DigOK(f, c) == (f.td # 99 => c[2] <= f.td) /\ (f.fd # 99 => c[3] <= f.fd)
-DigTable == {[f |-> f, text |-> c[1], ok |-> DigOK(f, c)] : f \in {g \in DigFacets : g.td = 99 \/ g.fd = 99 \/ g.fd <= g.td},
-                                                             c \in DecCands}
+(* digits on xs:decimal: both count digits of the VALUE v = i * 10^-n (trailing fraction   *)
+(* zeros and leading zeros do not count; 0.05 is i = 5, n = 2 and needs totalDigits >= 2).  *)
+(* Candidates are ALL decimal class words of length <= 5 over "0", "7", "." with an optional *)
+(* minus sign, so every shape of zero / leading zero / missing integer part is there.        *)
+RECURSIVE DecWordsOfLen(_)
+DecWordsOfLen(n) == IF n = 0 THEN {<<>>}
+                    ELSE {Append(u, c) : u \in DecWordsOfLen(n - 1), c \in {"0", "7", "."}}
+DecWords == {u \in UNION {DecWordsOfLen(n) : n \in 1..5} : DecimalLex(u)}
+DecCands == DecWords \cup {<<"-">> \o u : u \in {x \in DecWords : Len(x) <= 4}}
+TotalDigitsOf(u) == Len(Denote(u).int) + Len(Denote(u).frac)
+FracDigitsOf(u)  == Len(Denote(u).frac)
+DigFacets == {g \in [td : {99, 1, 2, 3}, fd : {99, 0, 1, 2, 3}] : g.td = 99 \/ g.fd = 99 \/ g.fd <= g.td}
+DigOK(f, u) == (f.td # 99 => TotalDigitsOf(u) <= f.td) /\ (f.fd # 99 => FracDigitsOf(u) <= f.fd)
+DigTable == {[f |-> f, w |-> u, ok |-> DigOK(f, u), val |-> Denote(u)] : f \in DigFacets, u \in DecCands}
+
+(* whiteSpace on string types: a restriction may only STRENGTHEN the whiteSpace of its base    *)
+(* (preserve < replace < collapse); the length family, enumeration and the decoded value all   *)
+(* see the text normalised by the EFFECTIVE whiteSpace - also when whiteSpace was fixed in an  *)
+(* earlier derivation step (two = TRUE: step 1 carries whiteSpace, step 2 the other facet).    *)
+(* Words over "a" (a letter), "s" (space), "t" (tab).                                          *)
+WsRank(x) == CASE x = "preserve" -> 0 [] x = "replace" -> 1 [] x = "collapse" -> 2
+WsOfBase(b) == CASE b = "string" -> "preserve" [] b = "normalizedString" -> "replace" [] b = "token" -> "collapse"
+ReplaceWs(u) == [i \in DOMAIN u |-> IF u[i] \in WS THEN "s" ELSE u[i]]
+NormalizeWs(mode, u) == CASE mode = "preserve" -> u [] mode = "replace" -> ReplaceWs(u) [] mode = "collapse" -> Collapse(u)
+RECURSIVE WsWordsOfLen(_)
+WsWordsOfLen(n) == IF n = 0 THEN {<<>>} ELSE {Append(u, c) : u \in WsWordsOfLen(n - 1), c \in {"a", "s", "t"}}
+WsWords == UNION {WsWordsOfLen(n) : n \in 0..4}
+WsRows == {r \in [base : {"string", "normalizedString", "token"}, ws : {"-", "preserve", "replace", "collapse"},
+                  fac : {"-", "len2", "min1", "max2", "enum"}, two : BOOLEAN] :
+             /\ (r.ws # "-" => WsRank(r.ws) >= WsRank(WsOfBase(r.base)))
+             /\ (r.two => r.ws # "-" /\ r.fac # "-")}
+WsEff(r) == IF r.ws = "-" THEN WsOfBase(r.base) ELSE r.ws
+WsFacOK(fac, v) == CASE fac = "-" -> TRUE [] fac = "len2" -> Len(v) = 2 [] fac = "min1" -> Len(v) >= 1
+                     [] fac = "max2" -> Len(v) <= 2 [] fac = "enum" -> v \in {<<"a", "s", "a">>, <<"a">>}
+WsTable == {[r |-> r, w |-> u, v |-> NormalizeWs(WsEff(r), u), ok |-> WsFacOK(r.fac, NormalizeWs(WsEff(r), u))] :
+              r \in WsRows, u \in WsWords}
+(* laws *)
+ASSUME \A u \in WsWords : Collapse(ReplaceWs(u)) = Collapse(u)                  \* collapse subsumes replace
+ASSUME \A u \in WsWords : \A m \in {"preserve", "replace", "collapse"} :
+          NormalizeWs(m, NormalizeWs(m, u)) = NormalizeWs(m, u)                  \* idempotent
+ASSUME \A u \in DecCands : FracDigitsOf(u) <= TotalDigitsOf(u)
 
 (* pattern [a-c]{2} on xs:string (preserve) and xs:token (collapse): the pattern sees the *)
 (* normalised value                                                                      *)
